@@ -160,7 +160,32 @@ func (g *jgen) ringPts() []ipt {
 	case 0: // perfect rectangle, counter clockwise from the minimum corner
 		x, y := g.rng.Int63n(40)-20, g.rng.Int63n(40)-20
 		w, h := 1+g.rng.Int63n(20), 1+g.rng.Int63n(20)
-		return []ipt{{x, y}, {x + w, y}, {x + w, y + h}, {x, y + h}, {x, y}}
+		r := []ipt{{x, y}, {x + w, y}, {x + w, y + h}, {x, y + h}, {x, y}}
+		switch g.rng.Intn(6) {
+		case 0, 3: // almost a rectangle: one vertex displaced along one axis (a trapezoid, a dart, ...)
+			i := g.rng.Intn(4)
+			alongX := g.rng.Intn(2) == 0
+			if g.rng.Intn(3) == 0 { // the last corner, sideways: every other clause of the "perfect rectangle" test still holds
+				i, alongX = 3, true
+			}
+			d := g.rng.Int63n(2*w+1) - w
+			if d == 0 {
+				d = 1
+			}
+			if alongX {
+				r[i].x += d
+			} else {
+				r[i].y += d
+			}
+			r[4] = r[0]
+		case 1: // the same rectangle started at another corner
+			k := 1 + g.rng.Intn(3)
+			q := append(append([]ipt{}, r[k:4]...), r[:k]...)
+			r = append(q, q[0])
+		case 2: // clockwise
+			r = []ipt{r[0], r[3], r[2], r[1], r[0]}
+		}
+		return r
 	case 1:
 		return closeRing(genRing(g.rng, 16))
 	}
